@@ -89,6 +89,10 @@ func (x *c20SX) ev(e ast.Expr, st *c20St) []c20EV {
 				continue
 			}
 			b, i := it.vs[0], it.vs[1]
+			if b.k == c20kList && !b.in && b.star == nil && b.tag != "presized" && i.k == c20kInt && i.h == nil && i.n >= 0 && i.n < int64(len(b.elems)) {
+				out = append(out, c20EV{it.st, c20StrV(b.elems[i.n])})
+				continue
+			}
 			if b.k == c20kAgg {
 				for _, l := range x.lookup(b, i, it.st, e) {
 					out = append(out, c20EV{l.st, l.v})
@@ -221,6 +225,9 @@ func (x *c20SX) field(b c20V, f *types.Var, st *c20St, at ast.Node) c20V {
 				return c20V{k: c20kObj, tag: "body", id: b.id}
 			}
 		case "doc":
+			if v, ok := st.heapGet(b.id, f.Name()); ok {
+				return v // stored since the struct was built
+			}
 			if v, ok := b.fields[f.Name()]; ok {
 				return v // a struct value built in the call (parameter group, option value): the field as given
 			}
@@ -270,7 +277,7 @@ func (x *c20SX) composite(cl *ast.CompositeLit, st *c20St, addr bool) []c20EV {
 		if b, ok := sl.Elem().Underlying().(*types.Basic); ok && b.Info()&types.IsString != 0 {
 			var out []c20EV
 			for _, it := range x.evList(cl.Elts, st) {
-				l := c20V{k: c20kList, typ: t}
+				l := c20V{k: c20kList, typ: t, id: x.newID()}
 				for _, v := range it.vs {
 					if v.k != c20kStr {
 						l = c20Unknown("list literal `%s`", x.srcOf(cl))
